@@ -9,6 +9,7 @@ import progcases
 TWINS = ['pred', 'label']      # harness/twins.py: which part of a twin text carries the difference
 
 N = {"quick": 500, "thorough": 12000}
+LEAN_MODULE = "Pyab.Properties.C05_full"
 
 
 def rand_literal(rng):
